@@ -2,6 +2,8 @@
 
 MC  : MC_Pool - the pool invariants as for C11 plus PlacementOK / TransposeOK: the specification's Reshape (index (i-1)*n1 + j) and Transpose
       put the result of signal [i, j] at [i][j] for every shape up to 3 x 3, for every interleaving.
+PROOF: PlacementProof.tla (TLAPS): the row-major index (i-1)*n1 + j is in range and injective for ALL extents n0, n1 (and the pinned tree's
+      i + j collides as soon as both extents exceed 1) - the one part of C12 that is established without a bound.
 RP/TV: every shape (n0, n1) in 1..3 x 1..3 (quick: a covering subset incl. n0 != n1 and size-1 dimensions) x axis in {0, 1, (0, 1)} x
       shared / 1-D / 2-D option lists x n_jobs, on the REAL compute_features_3d / BycycleGroup.fit with pairwise different signals and
       per-slice thresholds under injected worker delays; Trace_Pool places the per-task references with the specification's own Reshape /
@@ -12,6 +14,8 @@ import itertools
 import numpy as np
 
 import pool_tv as pt
+import tlaps
+import tlc
 from props import c11
 
 PREFIXES = ['C12.']
@@ -54,6 +58,20 @@ def run_rp(ctx, shapes, per_shape_axes):
     ctx.nontrivial += sum(1 for m in metas if m['shape'][0] != m['shape'][1] or 1 in m['shape'])
 
 
+def run_proof(ctx):
+    """PlacementProof.tla: for ALL extents the row-major flat index of [i, j] lies in the task list and is injective (TLAPS, 34 obligations);
+    TLC checks the same arithmetic only for shapes up to 3 x 3."""
+    r = tlaps.prove('PlacementProof', ctx.scratch)
+    if r is None:
+        ctx.notes.append('tlapm not installed: PlacementProof not re-checked')
+        return
+    ok, n, text = r
+    ctx.parts.append({'part': 'TLAPS.PlacementProof', 'obligations_proved': n, 'all_proved': ok,
+                      'theorems': ['InRange', 'Injective', 'OldIndexCollides', 'MulMono']})
+    if not ok:
+        raise tlc.TLCError('TLAPS could not re-check PlacementProof.tla:\n' + text[-1500:])
+
+
 def run(ctx):
     ctx.rule = ('MC: pool interleavings with the placement arithmetic; RP/TV: real 3-D group analyses over shapes x axis modes x option-list shapes x n_jobs '
                 '(non-trivial = n0 != n1 or a size-1 dimension, or out-of-order completion)')
@@ -61,9 +79,11 @@ def run(ctx):
     axes = [0, 1, (0, 1)]
     if ctx.quick:
         c11.run_mc(ctx, 'C12', [(4, 2), (6, 3)])
+        run_proof(ctx)
         run_rp(ctx, [(2, 3), (3, 1), (1, 2), (2, 2)], axes)
     else:
         c11.run_mc(ctx, 'C12', [(4, 2), (6, 3), (6, 6)])
+        run_proof(ctx)
         run_rp(ctx, list(itertools.product([1, 2, 3], [1, 2, 3])) + [(2, 4), (4, 2)], axes)
 
 
